@@ -237,7 +237,7 @@ def validate_with_real_kills(case, snaps, nsteps, ctx, acc, count):
 
 
 def shards(tier):
-    return [{"n": 110 if tier == "quick" else 1500, "kills": 0 if tier == "quick" else (3 if i % 2 == 0 else 0), "bulk": (1000 + 37 * i) if tier == "thorough" and i % 4 == 1 else 0} for i in range(16)]
+    return [{"n": 170 if tier == "quick" else 1500, "kills": 0 if tier == "quick" else (3 if i % 2 == 0 else 0), "bulk": (1000 + 37 * i) if tier == "thorough" and i % 4 == 1 else 0} for i in range(16)]
 
 
 def run_shard(spec, ctx):
